@@ -124,7 +124,9 @@ def minmax_empty_domain(job: dict, cres: dict, v: dict) -> bool:
     # empty, which is a different defect)
     text = cres.get("result_text") or v.get("after") or ""
     used = set(re.findall(r"(?<![A-Za-z0-9_])__dom_[A-Za-z0-9_]*", text))
-    defined = {line.split("(")[0].split(" ")[0].rstrip(".") for line in text.split("\n") if line.startswith("__dom_")}
+    defined = {line.lstrip("-").split("(")[0].split(" ")[0].rstrip(".") for line in text.split("\n")
+               if line.lstrip("-").startswith("__dom_")}
+    used -= set(re.findall(r"(?<![A-Za-z0-9_])__dom_[A-Za-z0-9_]*", job["prog"]))  # names the source uses itself
     if used - defined:
         return False
     for facts, present in v["bad_aux"]:
@@ -184,13 +186,15 @@ def _minmax_elements_possible(job: dict, facts: list):
                 line = stm.location.begin.line
                 idx = per_line.get(line, 0)
                 per_line[line] = idx + 1
-                others = [str(b) for b in stm.body if b is not lit and b.ast_type == ASTType.Literal
-                          and (b.atom.ast_type == ASTType.SymbolicAtom or (
-                              b.atom.ast_type == ASTType.Comparison
-                              and not set(v.name for v in _vars(b)) & set(v.name for v in _vars(lit.atom.left_guard))))]
+                # every other body literal (atoms of either sign, aggregates, conditional literals) except
+                # comparisons on the value of the aggregate
+                value_vars = set(v.name for v in _vars(lit.atom.left_guard))
+                others = [str(b) for b in stm.body if b is not lit and (
+                    b.ast_type == ASTType.ConditionalLiteral or (b.ast_type == ASTType.Literal and not (
+                        b.atom.ast_type == ASTType.Comparison and set(v.name for v in _vars(b)) & value_vars)))]
                 for elem in lit.atom.elements:
                     conds = [str(c) for c in elem.condition] + others
-                    extra.append(f"vt__elem({line},{idx})" + (" :- " + ", ".join(conds) if conds else "") + ".")
+                    extra.append(f"vt__elem({line},{idx})" + (" :- " + "; ".join(conds) if conds else "") + ".")
                 break  # ngo translates the first aggregate of a rule only
     ctl = clingo.Control(["0"] + [x for k, val in job["consts"] for x in ("-c", f"{k}={val}")], logger=lambda c, m: None)
     try:
@@ -466,7 +470,8 @@ def invented_equals_declared_output_only(job: dict, cres: dict, v: dict) -> bool
 def order_predicate_other_arity(job: dict, cres: dict, v: dict) -> bool:
     """a generated __chain/__min/__max/__next predicate is emitted with another arity than the one its name was reserved
     for, and the program or the declarations use exactly that name and arity"""
-    m = re.search(r"predicate\(s\) (\[.*\]) got a defining rule", v.get("detail", ""))
+    m = re.search(r"predicate\(s\) (\[.*?\]) (?:that the source uses but does not define )?got a defining rule",
+                  v.get("detail", ""))
     if not m:
         return False
     clash = set(eval(m.group(1)))  # pylint: disable=eval-used
